@@ -12,7 +12,7 @@ CHECKS = {
         text="Lru.tla states the cache as a state machine with the five clauses of the property as invariants/action "
              "properties over a ghost clock; TLC checks them exhaustively in small scopes and every transition of those "
              "state graphs is executed on storage.LRUCache (return values, resident and dirty sets compared); random long "
-             "runs at capacities up to 64 are recorded from the real cache and validated by TLC against LruTrace.tla.",
+             "runs at capacities up to 64 are recorded from the real cache and validated by TLC against LruTrace.tla. Store level: seeded runs of real statements in which a page write of a flush fails (injected I/O error): the flush must report it, the page must stay dirty and resident, and after every clean page is evicted all tables still read as the history implies (order of events validated against WalOrder.tla, WritePageFails).",
         design_ref="DESIGN.md 6 (C15)",
         note="Trusted: TLC, the Json module, the in-package accessor that forwards to LRUCache.set/get and reads its list. "
              "Bounded: 2-5 keys, capacity 1-4, depth 5-8 exhaustively; capacities 2-64 randomly.",
@@ -24,7 +24,7 @@ CHECKS = {
              "the abstract promise (tables = sequences of rows); TLC checks ScanEqAbs/CatalogOK/IdsOK/TreesOK exhaustively in bounded "
              "configurations (capacities 3/3, 1-2 tables, up to 4-7 statements) and prints one scenario per observable transition; "
              "every scenario (quick) or a seeded sample (thorough) is executed on the real engine through SQL text at capacities 3/3 "
-             "and SELECT * / sys_schema / row ids are compared with the promise, followed by flush+cache-drop and restart probes.",
+             "and SELECT * / sys_schema / row ids are compared with the promise, followed by flush+cache-drop and restart probes. Code -> spec: seeded runs of 250-700 statements at production capacities (flushes, some with a failing page write) are validated by TLC against AbsTrace.tla (contents) and WalOrderTrace.tla (order of stamps, log and data-file writes).",
         design_ref="DESIGN.md 6 (C01)",
         note="Trusted: TLC; the SQL rendering of abstract statements; hook verifIsFull (capacity override runs the same code). "
              "Bounded small-scope exhaustive, not a proof; page-level disagreement with the model is reported as drift, never as a violation.",
@@ -36,7 +36,7 @@ CHECKS = {
              "TLC explores all histories x flush placements x crash points x up to 2-3 crash/recover cycles within the bounds and checks "
              "NothingLost/StartsUp/ScanEqAbs/IdsOK; every crash-containing scenario is replayed: the real process state is abandoned, "
              "real storage.InitStorage recovers the files, real SELECTs are compared with the acknowledged state, then a clean "
-             "restart and a second recovery must change nothing.",
+             "restart and a second recovery must change nothing. Code -> spec: seeded long runs with crashes between statements and recoveries are validated by TLC against AbsTrace.tla and WalOrderTrace.tla (write-ahead rule: no LSN in the data file that is not in the log; replay only stamps pages with records newer than the page).",
         design_ref="DESIGN.md 6 (C02)",
         note="Trusted: TLC; crash between statements = files as the process left them (every log write is fsynced before a statement returns). "
              "Found and repaired with it: delete-shares-lsn, replay-update-decode, replay-lsn-regression (the last one found by TLC first).",
@@ -47,7 +47,7 @@ CHECKS = {
         text="Store.tla with the log append split into its write calls (length, body, fsync per record) and Crash enabled before each, "
              "unsynced tail kept or dropped; the promise is the set of row-prefix states of the interrupted statement; TLC enumerates "
              "every crash point of every statement in the bound; each is replayed by running the real statement under I/O recording "
-             "and composing the log file a crash at that point would leave, then real recovery, SELECT, and further statements.",
+             "and composing the log file a crash at that point would leave, then real recovery, SELECT, and further statements. Code -> spec: seeded long runs with crashes inside log appends are validated against AbsTrace.tla (TLC searches which row prefix survived) and WalOrderTrace.tla.",
         design_ref="DESIGN.md 6 (C03)",
         note="Crash model as in the property: cut at the last write or the last fsync, write() atomic. Known finding rootmove-record-cut "
              "(open) is identified by the specification's taint; torn-wal-tail was found and repaired.",
@@ -57,7 +57,7 @@ CHECKS = {
         category="model_checking",
         text="Store.tla with flushes as FlushPage(p)* . FlushHdr and Crash enabled between any two steps, for flushes started by the "
              "timer action, by CREATE TABLE and by recovery itself; TLC enumerates every subset of written pages; each is replayed by "
-             "composing the data file from the page images the real flush wrote; real recovery must start and hold an allowed state.",
+             "composing the data file from the page images the real flush wrote; real recovery must start and hold an allowed state. A failure on a path through a torn structural flush is excused by the known finding only where the model itself predicts the damage (pvok, StoreMC!Healthy). Code -> spec: seeded runs validated against WalOrderTrace.tla (every dirty page written before the header, header promises beyond everything on disk and in the log).",
         design_ref="DESIGN.md 6 (C04)",
         note="Crash model as in the property: page writes atomic, any order, header last. Most torn flushes at capacities 3/3 are structural "
              "(known finding torn-structural-flush, open, identified by the specification's taint); the untainted ones and "
@@ -80,7 +80,7 @@ CHECKS = {
         text="Store.tla with invalid rows at every position k of multi-row INSERTs, failing UPDATEs, unknown tables and duplicate CREATE "
              "TABLE; the promise after an error is the unchanged abstract state; TLC enumerates histories x failing statements x k; each "
              "path ending in a failing statement is replayed on the real engine and SELECT * / catalog compared before/after, after "
-             "flush+cache drop, after restart and after crash+recovery.",
+             "flush+cache drop, after restart and after crash+recovery. Multi-row UPDATEs with mixed outcomes (a later or the first matching row refused) come from ValueStore.tla with MixedUpd: the refused statement must leave every row as it was, immediately and after flush / evict / restart, on the direct and the SQL-text path.",
         design_ref="DESIGN.md 6 (C14)",
         note="Known finding partial-stmt-error (open): rows before the failing one stay applied; identified by the specification's taint "
              "(error after n > 0 applied row operations). Failing-first-row statements, duplicate tables, unknown tables must pass.",
@@ -91,7 +91,7 @@ CHECKS = {
         text="Design: Store.tla does not model clean cached pages (a clean page equals its disk image) and Lru.tla shows only clean pages "
              "are evicted, so all C01/C02 invariants hold for every capacity. Code: the TLC-generated histories are replayed with the "
              "page cache replaced by NewLRU(K), K from 9 to 32 (the database has 16-30 pages), flushing after each statement, and must "
-             "give the promised outcomes and contents; runs where a statement's dirty set does not fit (ErrLRUCacheFull) are discarded and counted.",
+             "give the promised outcomes and contents; runs where a statement's dirty set does not fit (ErrLRUCacheFull) are discarded and counted. Code -> spec: long runs at production capacities under caches of 6-64 pages (values from a growing domain so that a statement's dirty set fits; a statement that still fills the cache is followed by abandon + restart) validated against AbsTrace.tla / WalOrderTrace.tla.",
         design_ref="DESIGN.md 6 (C16)",
         note="At capacities 3/3 CREATE TABLE alone dirties up to 9 pages, so K < 9 violates the property's precondition. "
              "Evictions inside one operation are exercised by the replay, not modelled.",
@@ -104,7 +104,7 @@ CHECKS = {
              "traced at their linearization points (lock acquire/release, first page change, data-file writes, log writes) with the real "
              "100 ms ticker, each statement parked inside its critical section until the flusher has tried the lock; TLC validates the "
              "traces against LocksTrace.tla (a write inside a statement's window, a change outside the lock, a statement that never "
-             "took the lock are unmatched events). The same driver runs under the Go race detector as an extra observer.",
+             "took the lock are unmatched events). The same driver runs under the Go race detector as an extra observer. Order traces of seeded sequential runs under page caches of 6-24 pages are validated against WalOrderTrace.tla: no page or header write while a statement holds the shared lock.",
         design_ref="DESIGN.md 6 (C13)",
         note="Verdicts depend on event order under the lock, never on timing; the parking only makes the overlap happen on every run. "
              "Races outside the five listed statement kinds (USE / CREATE DATABASE vs the fresh ticker) are reported as notes.",
@@ -116,7 +116,7 @@ CHECKS = {
              "names, ticks and restarts change no content) with a ghost `unsaved` set that makes TLC generate the paths on which a leaked "
              "or re-opened store would lose data; every transition of the bounded graph (3 name variants incl. case, 2 values, 8-9 steps) "
              "is replayed through engine.Session with timers replaced by ticks delivered to every store still open; after each step the "
-             "selected database is read back, at the end every database is selected in turn, compared, and must accept a new row with a fresh id.",
+             "selected database is read back, at the end every database is selected in turn, compared, and must accept a new row with a fresh id. Databases declare equally named tables with different column lists, so that schema information of one database can never serve another.",
         design_ref="DESIGN.md 6 (C17)",
         note="Found and repaired with it: use-abandons-store, failed-use-nil-service. Trusted: TLC, hooks H1/H2 (timer off, store registry).",
         technique="TLA+ spec (Session.tla) model-checked with TLC; per-transition behaviour replay through engine.Session",
@@ -128,7 +128,7 @@ CHECKS = {
              "property on the machine and enumerates every stream of up to 3-4 records (10-12 for a two-class alphabet) over nine "
              "record classes for 8-13 schema/mapping/separator configurations; every stream is rendered as CSV (three line-end "
              "renderings), imported by the real colDataTypes+doBatchInsert into a fresh database behind the real RelationService, "
-             "and the ok/err event order and SELECT * are compared for equality with what TLC printed.",
+             "and the ok/err event order and SELECT * are compared for equality with what TLC printed. A panic in the import's own goroutine (which kills the process) is attributed to the running scenario and reported as a violation.",
         design_ref="DESIGN.md 6 (C19)",
         note="Trusted: TLC, Json module, the in-package harness (CSV rendering by the usual quoting rule, event/row copying). "
              "Value tables are finite (which decimal texts are 32/64-bit, booleans true/false/1/0); malformed quoting limited to "
@@ -197,7 +197,7 @@ CHECKS = {
              "flags, LSN up to 2^64-1, key magnitude) and store sequences over adjacent pages; every explored Fetch transition is executed "
              "on a real fileStore (fresh fileStore = cold cache) and the decoded node's logical content and the file length are compared with the "
              "register content; len(encode())==4096 and decode(encode(n))==n for every stored node; seeded random workloads over nodes of any "
-             "admissible size are recorded and validated by TLC against PageCodecTrace.tla.",
+             "admissible size are recorded and validated by TLC against PageCodecTrace.tla. Store level: in seeded runs of real statements every page the store holds is compared, after each flush, with what the data file alone decodes to (header included).",
         design_ref="DESIGN.md 6 (C12)",
         note="Trusted: TLC, Json module, accessor zz_verif_codec.go (forwards to insertLeafCell/appendInternalCell/insertInternalCell/split/"
              "encode/decode/update/fetch). Byte layout is not modelled, only exercised. Large values / cell lists compared by SHA-256. Scope: any "
@@ -228,7 +228,7 @@ CHECKS = {
              "on every column and on unknown names, joins with unknown tables, INSERT/UPDATE/DELETE/CREATE TABLE with confused values and "
              "names) and the session states {no USE, after a failed USE, empty tables, NULL-bearing rows}; every element is used at least once "
              "plus a seeded sample of the product; each statement goes through Session.ExecQuery under recover() and a watchdog; the "
-             "specification's postcondition is `result or error value`.",
+             "specification's postcondition is `result or error value`. The driver delivers the flusher's tick after every statement (under the hang watchdog), so a statement that leaves the store locked shows as a hang.",
         design_ref="DESIGN.md 6 (C18)",
         note="The oracle is deliberately trivial (no panic, no hang); the specification supplies the structure of the input space and the "
              "session states. Found and repaired with it: avg-orderby-type-assert; failed-use-nil-service (with C17).",
